@@ -3,6 +3,7 @@ package queryer
 import (
 	"encoding/json"
 	"errors"
+	"fmt"
 	"net/http"
 	"net/url"
 	"time"
@@ -116,6 +117,11 @@ func (q *MultiOpQueryer) Subscribe(req *requests.Request, closeCh <-chan struct{
 		for {
 			msg, err := wsutil.ReadServerText(conn)
 			if err != nil {
+				// the upstream connection is gone: tell whoever still listens why the stream ends
+				// (after a stop nobody does, and the send ends with the recover above)
+				resCh <- &requests.Response{
+					Errors: gqlerrors.FormatError(fmt.Errorf("upstream connection lost: %w", err)),
+				}
 				return
 			}
 
@@ -124,6 +130,9 @@ func (q *MultiOpQueryer) Subscribe(req *requests.Request, closeCh <-chan struct{
 				// try to unmarshal as error msg
 				var serverErrorResp requests.ServerSubErorrMsg
 				if innerErr := json.Unmarshal(msg, &serverErrorResp); innerErr != nil {
+					resCh <- &requests.Response{
+						Errors: gqlerrors.FormatError(fmt.Errorf("undecodable upstream message: %w", innerErr)),
+					}
 					return
 				}
 				resCh <- &requests.Response{
